@@ -271,6 +271,21 @@ def g_args(d, c, valid_bias=True):
     for j in range(k):
         v = vs[j] if j < len(vs) else vs[-1]
         parts.append(g_arg_text(d, v, valid_bias))
+    if d.unlikely(1, 12):
+        # the shape of the whole list: blanks only, empty positions, commas in front / behind
+        k = d.below(6)
+        if k == 0:
+            return d.pick([b" ", b"  ", b"   ", b"\t", b" \t ", b"      "])
+        if k == 1 and parts:
+            parts[d.below(len(parts))] = b""
+        elif k == 2:
+            return b",".join(parts) + d.pick([b",", b",,", b",,,", b", "])
+        elif k == 3:
+            return b"," + b",".join(parts)
+        elif k == 4:
+            return b"," * d.rng(1, len(vs) + 2)
+        else:
+            return b",".join(parts) + d.pick([b" ", b"  ", b"\t"])
     return b",".join(parts)
 
 
